@@ -179,6 +179,15 @@ def gen(rng, tier):
                 for x in (base, base + 1, base + rng.randrange(r ** (nn - 1))):
                     if x < (r + 1) ** nn:
                         emit(reqs, rng, x, nn, signed_too=(nn % 2 == 1))
+    # -- perfect powers of TINY bases at large degrees, r^n − 1, r^n, r^n + 1 for r = 2 … 7, 10 and a spread of degrees up
+    #    to 2000 (3000): a shortcut "the root is 1 / 2 / r when the bit length is below c·n" with a rounded constant is
+    #    wrong only in a narrow band just above r^n for particular degrees (C11-j1: log2 3 rounded to 1.585)
+    degs = [26, 53, 64, 65, 100, 106, 200, 253, 306, 359, 400, 453, 500, 506, 1000, 1024, 2000] + ([127, 128, 300, 600, 1500, 2048, 3000] if thorough else [])
+    for r in (2, 3, 4, 5, 6, 7, 10):
+        for n in (degs if thorough or r in (2, 3) else rng.sample(degs, 6)):
+            p = r ** n
+            for x in (p - 1, p, p + 1):
+                emit(reqs, rng, x, n, signed_too=(n % 2 == 1 and r == 3))
     reqs += inherent_methods(rng, thorough)
     return reqs
 
